@@ -6,7 +6,8 @@ import (
 	"io"
 )
 
-var zzhPNG = []byte("\x89PNG\r\n\x1a\n\x00\x00\x00\rIHDR")
+// a valid 3x2 PNG
+var zzhPNG = []byte("\x89PNG\r\n\x1a\n\x00\x00\x00\rIHDR\x00\x00\x00\x03\x00\x00\x00\x02\b\x06\x00\x00\x00\x9dtf\x1a\x00\x00\x00\x12IDATx\x9cbb@\x02(\x1c@\x00\x00\x00\xff\xff\x00h\x00\x05b\x8c8l\x00\x00\x00\x00IEND\xaeB`\x82")
 
 // zzhSomeDoc builds a document through the public API: a solver-chosen mix of content
 // kinds, every text a symbolic string.
@@ -78,4 +79,43 @@ func zzhSameParts(a, b map[string][]byte) bool {
 		ok = zzvAnd(ok, bytes.Equal(da, db))
 	}
 	return ok
+}
+
+const zzhNSMain = "http://schemas.openxmlformats.org/wordprocessingml/2006/main"
+const zzhNSRel = "http://schemas.openxmlformats.org/package/2006/relationships"
+
+const zzhContentTypesXML = `<?xml version="1.0" encoding="UTF-8"?>
+<Types xmlns="http://schemas.openxmlformats.org/package/2006/content-types"><Default Extension="rels" ContentType="application/vnd.openxmlformats-package.relationships+xml"/><Default Extension="xml" ContentType="application/xml"/><Default Extension="png" ContentType="image/png"/><Override PartName="/word/document.xml" ContentType="application/vnd.openxmlformats-officedocument.wordprocessingml.document.main+xml"/><Override PartName="/word/styles.xml" ContentType="application/vnd.openxmlformats-officedocument.wordprocessingml.styles+xml"/></Types>`
+
+const zzhTopRelsXML = `<?xml version="1.0" encoding="UTF-8"?>
+<Relationships xmlns="http://schemas.openxmlformats.org/package/2006/relationships"><Relationship Id="rId1" Type="http://schemas.openxmlformats.org/officeDocument/2006/relationships/officeDocument" Target="word/document.xml"/></Relationships>`
+
+const zzhStylesXML = `<?xml version="1.0" encoding="UTF-8"?>
+<w:styles xmlns:w="http://schemas.openxmlformats.org/wordprocessingml/2006/main"><w:style w:type="paragraph" w:styleId="Normal"><w:name w:val="Normal"/></w:style></w:styles>`
+
+func zzhDocXML(body string) string {
+	return `<?xml version="1.0" encoding="UTF-8"?>
+<w:document xmlns:w="` + zzhNSMain + `" xmlns:r="http://schemas.openxmlformats.org/officeDocument/2006/relationships"><w:body>` + body + `</w:body></w:document>`
+}
+
+// zzhZip builds an archive from parts (natively a real ZIP, under gosx the archive stub).
+func zzhZip(names []string, parts map[string][]byte) []byte {
+	var buf bytes.Buffer
+	zw := zip.NewWriter(&buf)
+	for _, n := range names {
+		w, err := zw.Create(n)
+		if err != nil {
+			return nil
+		}
+		w.Write(parts[n])
+	}
+	if zw.Close() != nil {
+		return nil
+	}
+	return buf.Bytes()
+}
+
+// zzhOpen opens a package given as parts through the real OpenFromMemory.
+func zzhOpen(names []string, parts map[string][]byte) (*Document, error) {
+	return OpenFromMemory(io.NopCloser(bytes.NewReader(zzhZip(names, parts))))
 }
